@@ -17,6 +17,7 @@ func runC02(p *core.Prog, r *core.Result) {
 		"R2.1 no nondeterminism source (clock, pid, random numbers, directory order, addresses, Go-map order into an ordered sink) is reachable from the code that computes or compares stamps",
 		"R2.2 source files are compared by content hash: the verdict 'up to date' is returned exactly on equality of the recorded sum and the sum of the current contents; no modification time is consulted",
 		"R2.3 loading a target rewrites the record it has just read with every decision-relevant field (all but the documentation) unchanged, field by field over the record type: a load cannot drop the stamp dependents compare",
+		"R2.6 the verdict 'a dependency is out of date' is produced only where a dependency has no recorded stamp, changed in this build, or has a stamp different from the recorded one - nowhere else (no comparison of counts, no extra condition merged in after the loop)",
 		"R2.5 the current environment of a function (functionEnv) is not computed from anything reachable from loadFunction: it is taken only after every module has finished executing, so it is complete",
 		"R2.4 both sides of the environment comparison are produced by the same decoder/unpickler, and the persisted stamp by the same pickler as the current one",
 	}
@@ -53,6 +54,9 @@ func runC02(p *core.Prog, r *core.Result) {
 	} else {
 		r.Unk("R2.5", "anchor:dawn.functionEnv/loadFunction", "-", "not found")
 	}
+
+	// ---- R2.6 dependencies are declared out of date only for a reason
+	checkStalenessHasReason(p, r)
 
 	// ---- R2.3
 	checkLoadRewritesRead(p, r, "R2.3")
@@ -384,4 +388,111 @@ func checkSourceCompare(p *core.Prog, r *core.Result, rule string) {
 		r.Check(okHash, rule, "dawn.fileSum#content-hash", p.Pos(fileSum.Pos()), "fileSum hashes the file's bytes (or the directory's entries)", "fileSum does not hash the file's contents")
 	}
 
+}
+
+
+// checkStalenessHasReason implements R2.6 (the converse of R1.2): every edge that marks the dependencies out of date
+// carries one of the three reasons. Edges merged into the verdict after the dependency loop have none.
+func checkStalenessHasReason(p *core.Prog, r *core.Result) {
+	m := buildEvalModel(p, r, "R2.6")
+	if m == nil {
+		return
+	}
+	carriers := findStalenessCarriers(m.DepsFn)
+	if len(carriers) == 0 {
+		r.Unk("R2.6", "dawn.(*runTarget).Evaluate#deps-accumulator", p.Pos(m.DepsFn.Pos()), "no staleness carrier recognised in the dependency loop")
+		return
+	}
+	reason := func(fs core.FactSet) string {
+		if fs.Find(func(c ssa.Value, v bool) bool {
+			ex, ok := c.(*ssa.Extract)
+			if !ok || ex.Index != 1 || v {
+				return false
+			}
+			lk, ok := ex.Tuple.(*ssa.Lookup)
+			return ok && m.recordedDeps(lk.X)
+		}) {
+			return "no recorded stamp"
+		}
+		if fs.Find(func(c ssa.Value, v bool) bool { return v && core.LoadOfField(c, pkgRoot, "runTarget", "changed") }) {
+			return "changed in this build"
+		}
+		if fs.Find(func(c ssa.Value, v bool) bool {
+			b, ok := c.(*ssa.BinOp)
+			if !ok || (b.Op != token.NEQ && b.Op != token.EQL) || (b.Op == token.NEQ) != v {
+				return false
+			}
+			isCur := func(x ssa.Value) bool { return core.LoadOfField(x, pkgRoot, "runTarget", "data") }
+			isPrev := func(x ssa.Value) bool {
+				ex, ok := x.(*ssa.Extract)
+				if !ok || ex.Index != 0 {
+					return false
+				}
+				lk, ok := ex.Tuple.(*ssa.Lookup)
+				return ok && m.recordedDeps(lk.X)
+			}
+			return isCur(b.X) && isPrev(b.Y) || isCur(b.Y) && isPrev(b.X)
+		}) {
+			return "stamp differs from the recorded one"
+		}
+		return ""
+	}
+	n := 0
+	for _, car := range carriers {
+		efs := p.PhiEdgeFacts(car.phi)
+		for i, e := range car.phi.Edges {
+			if !car.marked(e) {
+				continue
+			}
+			n++
+			construct := fmt.Sprintf("%s#marks-out-of-date-%d", fname(m.DepsFn), n)
+			// the marking edge: facts on the edge, or (an || chain evaluated before a shared marking block) on some
+			// path into it - each incoming path of the marking block must carry a reason
+			why := reason(efs[i])
+			if why == "" {
+				pred := car.phi.Block().Preds[i]
+				all := len(pred.Preds) > 0
+				for _, q := range pred.Preds {
+					si := 0
+					for k, sc := range q.Succs {
+						if sc == pred {
+							si = k
+						}
+					}
+					if reason(p.EdgeFacts(q, si)) == "" {
+						all = false
+					}
+				}
+				if all {
+					why = "one of the three reasons on every path into the marking block"
+				}
+			}
+			r.Check(why != "", "R2.6", construct, p.InstrPos(car.phi), "a dependency is marked out of date because: "+why, "a dependency is marked out of date on an edge where it has a recorded stamp, did not change and has the recorded stamp: an unchanged tree rebuilds")
+		}
+	}
+	r.Floor("R2.6", n, 1, "edges marking a dependency out of date")
+	// after the loop nothing else is merged into a boolean verdict
+	for _, car := range carriers {
+		if car.kind != "bool" {
+			continue
+		}
+		fnHost := car.phi.Parent()
+		core.Instrs(fnHost, func(in ssa.Instruction) {
+			ph, ok := in.(*ssa.Phi)
+			if !ok || ph == car.phi || core.Reaches(ph.Block(), ph.Block(), false) {
+				return
+			}
+			fromCarrier, extraFalse := false, false
+			for _, e := range ph.Edges {
+				if core.Unwrap(e) == ssa.Value(car.phi) {
+					fromCarrier = true
+				} else if b, isConst := core.ConstBool(e); isConst && !b {
+					extraFalse = true
+				}
+			}
+			if fromCarrier && extraFalse {
+				r.Bad("R2.6", fmt.Sprintf("%s#verdict-weakened-after-loop", fname(fnHost)), p.InstrPos(ph), "after the dependency loop the verdict 'all dependencies up to date' is set to false by a further condition (e.g. a comparison of the number of recorded and declared dependencies, which differ whenever a label is listed twice): the target and everything downstream re-execute on every build of an unchanged tree")
+			}
+		})
+	}
 }
